@@ -1,11 +1,13 @@
 #!/bin/bash
 # developer tool: tools/regress.sh split over N shards, each with its own copy of /verif (own facts
 # cache) and its own detached worktree of /repo, so shards do not disturb each other or /repo.
-# usage: tools/regress_sharded.sh [N=4] ; logs in /tmp/regress/shard<i>.log ; summary at the end.
+# usage: [REGRESS_LIST=<file of 'M <id>' / 'B <id>' lines>] tools/regress_sharded.sh [N=4] ; logs in /tmp/regress/shard<i>.log ; summary at the end.
 N=${1:-4}
 rm -rf /tmp/regress; mkdir -p /tmp/regress
+if [ -n "${REGRESS_LIST:-}" ]; then cp "$REGRESS_LIST" /tmp/regress/all; else
 ls -d /verif/seeded/*/ | sed 's|.*/seeded/||; s|/||; s|^|M |' > /tmp/regress/all
 ls -d /verif/seeded_benign/*/ | sed 's|.*/seeded_benign/||; s|/||; s|^|B |' >> /tmp/regress/all
+fi
 for i in $(seq 0 $((N-1))); do
   awk -v n=$N -v i=$i 'NR%n==i' /tmp/regress/all > /tmp/regress/list$i
   rm -rf /tmp/regress/v$i; rsync -a --exclude .git --exclude .cache /verif/ /tmp/regress/v$i/
